@@ -447,7 +447,7 @@ class Check(core.PropertyCheck):
             "AcceptTab": self.accept_tab(set(http) | set(SOCKS_CREDS)),
             "MaxReq": 2 if quick else 3,
             "NConn": 2,
-            "ColonSplit": True,
+            "ColonSplit": False,
         }
 
     @staticmethod
